@@ -451,11 +451,4 @@ def aborts(ctx):
 
 
 def guarded_by_gt(f, n):
-    ix = Index(f["body"])
-    nm = show(peel(n["l"]))
-    for a in ix.ancestors(n):
-        if a.get("k") == "if" and contains(a["then"], n):
-            cs = show(a["cond"]).replace(" ", "")
-            if cs in ("(%s>0)" % nm, "(%s>=1)" % nm, "(%s!=0)" % nm):
-                return True
-    return False
+    return c14.guarded_decrement(f, n)
